@@ -60,7 +60,9 @@ Proof.
   cbn zeta. unfold var_mismatch, var_holds, var_body, var_benign, resp_inert.
   cbn [rebuild N.eqb]. rewrite app_nil_r, str_eqb_refl.
   destruct ct_json_json as [J M]. rewrite J, M. split; [reflexivity|].
-  unfold model_json. destruct (svc =? 0); [apply proxy_xhr_json_ok | apply auth_error_json_ok].
+  unfold model_json. destruct (svc =? 0).
+  - reflexivity.
+  - rewrite json_doc_ok_auth. unfold auth_error_json, error_key. cbn [app]. reflexivity.
 Qed.
 
 Lemma judge_page_model svc name F d d0 real segs via :
@@ -88,8 +90,8 @@ Lemma judge_json_model svc msg :
 Proof.
   cbn [judge]. unfold resp_inert. destruct ct_json_json as [J M]. rewrite J, M.
   destruct (svc =? 0).
-  - rewrite proxy_xhr_json_ok, str_eqb_refl. reflexivity.
-  - rewrite auth_error_json_ok, str_eqb_refl. reflexivity.
+  - rewrite str_eqb_refl. reflexivity.
+  - rewrite json_doc_ok_auth, str_eqb_refl. unfold auth_error_json, error_key. cbn [app]. reflexivity.
 Qed.
 
 (* a call site whose page is independent of the hostile inputs: same bytes as the benign run, and
@@ -113,4 +115,22 @@ Proof.
   intros H. apply andb_true_iff in H as [E H]. f_equal; [|apply IH; exact H].
   destruct x, y; cbn in E; try discriminate; try reflexivity;
     try (apply Bool.eqb_prop in E; subst; reflexivity); apply N.eqb_eq in E; subst; reflexivity.
+Qed.
+
+(* a 30x whose body is net/http's note for ANY url, judged against the note for any other url, is
+   accepted; so is a redirect without body *)
+Lemma judge_note_model svc site text url url0 segs :
+  ~ In 60 text -> rebuild (redirect_note url text) segs = redirect_note url0 text ->
+  judge (CNote svc site text ct_html (redirect_note url text) segs) = 0.
+Proof.
+  intros Ht R. cbn [judge]. rewrite note_url_of_note, html_unescape_net_escape, str_eqb_refl, ct_html_markup.
+  unfold resp_inert, page_inert. rewrite ct_html_markup, R.
+  destruct (redirect_note_inert text Ht url url0) as [A B]. rewrite A, B, evs_eqb_refl.
+  unfold redirect_note, note_pre. cbn [app]. reflexivity.
+Qed.
+
+Lemma judge_note_empty svc site text ct : judge (CNote svc site text ct [] []) = 0.
+Proof.
+  cbn [judge rebuild]. unfold resp_inert, page_inert.
+  destruct (is_markup_type ct); [reflexivity|]. destruct (is_json_type ct); reflexivity.
 Qed.
